@@ -124,6 +124,9 @@ type reachSet struct {
 	maps    map[*MapObj]bool
 	ordObjs []*Object
 	ordMaps []*MapObj
+	// how an array object was reached: through slices (their capacity windows) and/or through a pointer
+	wins   map[*Object][][2]int
+	viaPtr map[*Object]bool
 }
 
 func (m *Machine) reach(rs *reachSet, v Value) {
@@ -141,12 +144,24 @@ func (m *Machine) reach(rs *reachSet, v Value) {
 			m.reach(rs, f)
 		}
 	case PtrV:
+		if x.Obj != nil {
+			if rs.viaPtr == nil {
+				rs.viaPtr = map[*Object]bool{}
+			}
+			rs.viaPtr[x.Obj] = true
+		}
 		if x.Obj != nil && !rs.objs[x.Obj] {
 			rs.objs[x.Obj] = true
 			rs.ordObjs = append(rs.ordObjs, x.Obj)
 			m.reach(rs, x.Obj.Val)
 		}
 	case SliceV:
+		if x.Arr != nil {
+			if rs.wins == nil {
+				rs.wins = map[*Object][][2]int{}
+			}
+			rs.wins[x.Arr] = append(rs.wins[x.Arr], [2]int{x.Off, x.Off + x.Cap})
+		}
 		if x.Arr != nil && !rs.objs[x.Arr] {
 			rs.objs[x.Arr] = true
 			rs.ordObjs = append(rs.ordObjs, x.Arr)
@@ -230,6 +245,21 @@ func (m *Machine) disjoint(a, b Value) bool {
 		if rb.objs[o] {
 			if arr, ok := o.Val.(ArrayV); ok && len(arr) == 0 {
 				continue
+			}
+			// a backing array reached only through slices on both sides is shared only where the slices'
+			// capacity windows overlap (a zero-capacity slice reaches no storage at all)
+			if !ra.viaPtr[o] && !rb.viaPtr[o] && len(ra.wins[o]) > 0 && len(rb.wins[o]) > 0 {
+				overlap := false
+				for _, x := range ra.wins[o] {
+					for _, y := range rb.wins[o] {
+						if x[0] < y[1] && y[0] < x[1] {
+							overlap = true
+						}
+					}
+				}
+				if !overlap {
+					continue
+				}
 			}
 			return false
 		}
